@@ -144,6 +144,16 @@ impl Scen {
 
     /// Joins all sessions started through `start`; returns (all ended in time, panic texts).
     pub fn join_all(&mut self, timeout: Duration) -> (bool, Vec<String>) {
+        let r = self.join_all_keep(timeout);
+        if let Ok(mut st) = self.exec.state.lock() {
+            st.sessions.clear();
+        }
+        r
+    }
+
+    /// Like `join_all` but leaves the executor's session table alone (invoked sessions that are
+    /// still ending need it to cancel their own children).
+    pub fn join_all_keep(&mut self, timeout: Duration) -> (bool, Vec<String>) {
         let deadline = Instant::now() + timeout;
         let mut all = true;
         let mut panics = Vec::new();
@@ -160,9 +170,6 @@ impl Scen {
                     all = false;
                 }
             }
-        }
-        if let Ok(mut st) = self.exec.state.lock() {
-            st.sessions.clear();
         }
         (all, panics)
     }
